@@ -6,7 +6,7 @@
    is the old remaining scan minus the deleted key.  All chains, cursors and keys - no bound. *)
 Require Import List ZArith Bool Lia Sorted. Import ListNotations.
 Require Import IW.KV.Node IW.KV.Spec IW.KV.Node_proofs IW.KV.Cursor IW.KV.Cursor_proofs IW.KV.Stable_proofs
-               IW.KV.ScanStable_proofs.
+               IW.KV.ScanStable_proofs IW.KV.StablePrev_proofs.
 
 Section StableDel.
 Variables K V : Type.
@@ -24,6 +24,8 @@ Notation flat := (flat K V).
 Notation ids := (map (@fst nat recs)).
 Notation NodeInv := (NodeInv K V cmp IDXNUM).
 Notation after := (after K V cmp).
+Notation before := (before K V cmp).
+Notation before_at := (before_at K V cmp cmp_antisym).
 Notation node_cursor := (node_cursor K V).
 
 (* ---- what a successful delete does to the chain ---- *)
@@ -164,6 +166,18 @@ Proof.
   - destruct idx as [|idx]; cbn [remove_at]; [reflexivity|]. change (skipn (S (S idx)) (x :: remove_at K V r idx)) with (skipn (S idx) (remove_at K V r idx)).
     change (skipn (S (S (S idx))) (x :: r)) with (skipn (S (S idx)) r). apply IH.
 Qed.
+Lemma firstn_remove_at (r : recs) idx p : p <= idx -> firstn p (remove_at K V r idx) = firstn p r.
+Proof.
+  revert idx p; induction r as [|x r IH]; intros idx p H; [destruct idx, p; reflexivity|].
+  destruct idx as [|idx]; [assert (p = 0) by lia; subst p; reflexivity|].
+  destruct p as [|p]; [reflexivity|]. cbn [remove_at firstn]. f_equal. apply IH. lia.
+Qed.
+Lemma last_split (ra : recs) e : nth_error ra (length ra - 1) = Some e -> ra = firstn (length ra - 1) ra ++ [e].
+Proof.
+  intros H. assert (Hl : length ra - 1 < length ra) by (apply nth_error_Some; congruence).
+  rewrite <- (firstn_S_nth _ ra (length ra - 1) e H). replace (S (length ra - 1)) with (length ra) by lia.
+  symmetry. apply firstn_all.
+Qed.
 Lemma nth_remove_before (r : recs) idx p : p < idx -> nth_error (remove_at K V r idx) p = nth_error r p.
 Proof.
   intros H. pose proof (remove_keeps_record K V 1 (le_n 1) r idx p ltac:(lia)) as E.
@@ -251,12 +265,14 @@ Inductive del_outcome (k : K) (c c' : chain) (cur cur' : cursor) (k0 : K) (v0 : 
     cursor_read K V c' cur' = Some (k0, v0) -> del_outcome k c c' cur cur' k0 v0
 | OutSucc id' p' k1 v1 : cmp k0 k = Eq -> node_cursor c' cur' id' p' -> c_skip cur' = 1%Z ->
     cursor_read K V c' cur' = Some (k1, v1) ->
-    after (flat c) k0 = (k1, v1) :: after (flat c') k1 -> del_outcome k c c' cur cur' k0 v0
+    after (flat c) k0 = (k1, v1) :: after (flat c') k1 -> before (flat c) k0 = before (flat c') k1 ->
+    del_outcome k c c' cur cur' k0 v0
 | OutPred id' p' k1 v1 : cmp k0 k = Eq -> node_cursor c' cur' id' p' -> c_skip cur' = (-1)%Z ->
     cursor_read K V c' cur' = Some (k1, v1) ->
-    after (flat c) k0 = after (flat c') k1 -> del_outcome k c c' cur cur' k0 v0
+    after (flat c) k0 = after (flat c') k1 -> before (flat c) k0 = before (flat c') k1 ++ [(k1, v1)] ->
+    del_outcome k c c' cur cur' k0 v0
 | OutEmpty : cmp k0 k = Eq -> cur' = {| c_cn := None; c_pos := 0; c_skip := 0%Z; c_pend := c_pend cur |} -> c' = [] ->
-    after (flat c) k0 = [] -> del_outcome k c c' cur cur' k0 v0.
+    after (flat c) k0 = [] -> before (flat c) k0 = [] -> del_outcome k c c' cur cur' k0 v0.
 
 Definition mk (cc : ccopy) (p : nat) (sk : Z) (pe : pending) : cursor :=
   {| c_cn := Some cc; c_pos := p; c_skip := sk; c_pend := pe |}.
@@ -319,6 +335,10 @@ Proof.
         -- unfold c, c'. rewrite (after_at A B nid r idx k0 v0 Hs Hnth).
            rewrite (after_at A B nid (remove_at K V r idx) (idx - 1) k1 v1 Hs' Hrd).
            rewrite !skipn_all2 by lia. reflexivity.
+        -- unfold c, c'. rewrite (before_at A B nid r idx k0 v0 Hs Hnth).
+           rewrite (before_at A B nid (remove_at K V r idx) (idx - 1) k1 v1 Hs' Hrd).
+           rewrite (firstn_remove_at r idx (idx - 1)) by lia. rewrite <- app_assoc. f_equal.
+           replace idx with (S (idx - 1)) at 1 by lia. apply firstn_S_nth. exact En.
       * (* the slot now holds the successor: marker +1 *)
         assert (Hsi : S idx < length r).
         { apply andb_false_iff in Eb. destruct Eb as [E0|E1].
@@ -334,6 +354,9 @@ Proof.
         -- unfold c, c'. rewrite (after_at A B nid r idx k0 v0 Hs Hnth).
            rewrite (after_at A B nid (remove_at K V r idx) idx k1 v1 Hs' Hrd).
            rewrite skipn_remove_at. rewrite (skipn_nth_cons _ r (S idx) (k1, v1) En). reflexivity.
+        -- unfold c, c'. rewrite (before_at A B nid r idx k0 v0 Hs Hnth).
+           rewrite (before_at A B nid (remove_at K V r idx) idx k1 v1 Hs' Hrd).
+           rewrite (firstn_remove_at r idx idx) by lia. reflexivity.
     + apply Nat.eqb_neq in Epi.
       pose proof (remove_keeps_record K V 1 (le_n 1) r idx p Epi) as Hk.
       destruct (Nat.ltb idx p) eqn:El.
@@ -410,8 +433,9 @@ Proof.
     + (* no successor *)
       cbn [nid_of]. destruct (nil_or_last A) as [EA|[A1 [a [ra EA]]]].
       * subst A. unfold last_id_or. cbn [rev]. cbn [fst] in Hke.
-        apply OutEmpty; [exact Hke|reflexivity|exact Ec'|].
-        rewrite Ec. exact (after_at [] [] nid [(k0, v0)] 0 k0 v0 Hs eq_refl).
+        apply OutEmpty; [exact Hke|reflexivity|exact Ec'| |].
+        -- rewrite Ec. exact (after_at [] [] nid [(k0, v0)] 0 k0 v0 Hs eq_refl).
+        -- rewrite Ec. exact (before_at [] [] nid [(k0, v0)] 0 k0 v0 Hs eq_refl).
       * (* falls back to the last record of the predecessor, marker -1 *)
         subst A. rewrite last_id_or_snoc.
         assert (Ha : ~ In a (ids A1)).
@@ -432,6 +456,11 @@ Proof.
            refine (eq_trans (after_at (A1 ++ [(a, ra)]) [] nid [(k0, v0)] 0 k0 v0 Hs eq_refl) _).
            refine (eq_sym (eq_trans (after_at A1 [] a ra (length ra - 1) k1 v1 Hs' Hl1) _)).
            rewrite skipn_all2 by lia. reflexivity.
+        -- rewrite Ec, Ec', app_nil_r.
+           refine (eq_trans (before_at (A1 ++ [(a, ra)]) [] nid [(k0, v0)] 0 k0 v0 Hs eq_refl) _).
+           refine (eq_sym (eq_trans (f_equal (fun x => x ++ [(k1, v1)]) (before_at A1 [] a ra (length ra - 1) k1 v1 Hs' Hl1)) _)).
+           cbn [firstn]. rewrite app_nil_r. rewrite (flat_app' K V). change (flat [(a, ra)]) with (ra ++ []). rewrite app_nil_r.
+           rewrite <- app_assoc. f_equal. symmetry. apply last_split. exact Hl1.
     + (* the successor's first record, marker +1 *)
       cbn [nid_of].
       assert (Hb : ~ In b0 (ids A)).
@@ -450,6 +479,9 @@ Proof.
         refine (eq_trans (after_at A ((b0, (k1, v1) :: rb') :: B') nid [(k0, v0)] 0 k0 v0 Hs eq_refl) _).
         cbn [skipn app]. change (flat ((b0, (k1, v1) :: rb') :: B')) with ((k1, v1) :: rb' ++ flat B'). f_equal.
         exact (eq_sym (after_at A B' b0 ((k1, v1) :: rb') 0 k1 v1 Hs' eq_refl)).
+      * rewrite Ec, Ec'.
+        refine (eq_trans (before_at A ((b0, (k1, v1) :: rb') :: B') nid [(k0, v0)] 0 k0 v0 Hs eq_refl) _).
+        exact (eq_sym (before_at A B' b0 ((k1, v1) :: rb') 0 k1 v1 Hs' eq_refl)).
   - rewrite (remove_node_off c' cur nid _ _ (node_cursor_not_on K V c cur id p nid Hnc ltac:(congruence))).
     subst c c'. destruct (removal_other A B nid [e] cur id p (k0, v0) Hnc Hne Hr) as [H1 [H2 H3]].
     apply (OutSame k _ _ cur _ k0 v0 id p); [exact H1|exact H2|exact H3].
@@ -618,7 +650,7 @@ Proof.
   pose proof (read_in_flat K V c cur id p (k0, v0) Hu Hnc Hr) as Hin.
   rewrite (scan_is_after K V cmp IDXNUM PIVOT cmp_antisym pivot_ok c cur id p k0 v0 fuel Hinv Hu Hnc Hsk Hr) by lia.
   destruct (del_keeps_cursor k c c' ch cur id p k0 v0 He Hinv Hu Hnc Hr)
-    as [id' p' H1 H2 H3|id' p' k1 v1 Hk H1 H2 H3 H4|id' p' k1 v1 Hk H1 H2 H3 H4|Hk H1 H2 H3].
+    as [id' p' H1 H2 H3|id' p' k1 v1 Hk H1 H2 H3 H4 H5|id' p' k1 v1 Hk H1 H2 H3 H4 H5|Hk H1 H2 H3 H5].
   - (* the cursor's record survives *)
     rewrite (scan_is_after K V cmp IDXNUM PIVOT cmp_antisym pivot_ok c' _ id' p' k0 v0 fuel Hinv' Hu' H1) by (try lia; congruence).
     rewrite Hflat. apply (after_s_del (flat c) k k0 v0 Hs Hin).
@@ -637,6 +669,126 @@ Proof.
     rewrite <- H4. symmetry. apply (s_del_after_not_ahead (flat c) k k0 v0 Hs Hin). congruence.
   - (* the database became empty *)
     rewrite H1, H2, H3. rewrite (scan_empty cur). reflexivity.
+Qed.
+
+(* ---- backward scans of cursors that carry a pending-step marker ---- *)
+Lemma scan_prev_marker_fwd (c : chain) cur fuel : (0 <= c_skip cur)%Z ->
+  scan_prev K V IDXNUM fuel c cur = scan_prev K V IDXNUM fuel c (zero_skip cur).
+Proof.
+  intros Hle. destruct fuel as [|f]; [reflexivity|]. cbn [scan_prev].
+  assert (E : cursor_to K V IDXNUM c cur CPrev = cursor_to K V IDXNUM c (zero_skip cur) CPrev).
+  { unfold cursor_to, zero_skip. cbn [c_cn c_pos c_skip c_pend].
+    assert (E1 : (c_skip cur <? 0)%Z = false) by (apply Z.ltb_ge; exact Hle). rewrite E1.
+    change (0 <? 0)%Z with false. reflexivity. }
+  rewrite E. reflexivity.
+Qed.
+
+Lemma scan_prev_marker_back (c : chain) cur id p e fuel : (c_skip cur < 0)%Z ->
+  node_cursor c cur id p -> cursor_read K V c cur = Some e ->
+  scan_prev K V IDXNUM (S fuel) c cur = e :: scan_prev K V IDXNUM fuel c (zero_skip cur).
+Proof.
+  intros Hlt [cc [H1 [H2 H3]]] Hr. cbn [scan_prev]. unfold cursor_to. rewrite H1.
+  assert (E1 : (c_skip cur <? 0)%Z = true) by (apply Z.ltb_lt; exact Hlt). rewrite E1.
+  assert (Ez : {| c_cn := Some cc; c_pos := c_pos cur; c_skip := 0%Z; c_pend := c_pend cur |} = zero_skip cur)
+    by (unfold zero_skip; rewrite H1; reflexivity).
+  change {| c_cn := Some cc; c_pos := c_pos cur; c_skip := 0; c_pend := c_pend cur |} with
+    {| c_cn := Some cc; c_pos := c_pos cur; c_skip := 0%Z; c_pend := c_pend cur |}.
+  rewrite Ez. rewrite zero_skip_read, Hr. reflexivity.
+Qed.
+
+Lemma scan_prev_empty (cur : cursor) fuel pe :
+  scan_prev K V IDXNUM fuel [] {| c_cn := None; c_pos := 0; c_skip := 0%Z; c_pend := pe |} = [].
+Proof.
+  destruct fuel as [|f]; [reflexivity|]. cbn [scan_prev]. unfold cursor_to. cbn [c_cn c_pend c_skip c_pos].
+  destruct pe; cbn [load_head load_tail cc_pnum cc_p0 last_id rev is_db cc_node]; change (0 <? 0)%Z with false; cbv iota;
+    cbn [Nat.eqb]; reflexivity.
+Qed.
+
+(* ---- the specification side, backward ---- *)
+Lemma before_all_lt (l : recs) k0 : sorted l -> (exists v0, In (k0, v0) l) -> all_lt K V cmp (before l k0) k0.
+Proof.
+  induction l as [|[k1 v1] l IH]; intros Hs [v0 Hin]; [destruct Hin|].
+  inversion Hs as [|? ? Hs' Hf]; subst. rewrite Forall_forall in Hf. cbn [ScanStable_proofs.before].
+  destruct (cmp k1 k0) eqn:E; [constructor| |].
+  - constructor; [exact E|]. destruct Hin as [Hin|Hin]; [inversion Hin; subst; rewrite cmp_refl' in E; discriminate|].
+    apply IH; [exact Hs'|eauto].
+  - exfalso. destruct Hin as [Hin|Hin]; [inversion Hin; subst; rewrite cmp_refl' in E; discriminate|].
+    specialize (Hf _ Hin). unfold klt in Hf. cbn [fst] in Hf. congruence.
+Qed.
+
+Lemma s_del_all_lt (a : recs) k : all_lt K V cmp a k -> s_del a k = a.
+Proof.
+  intros H. rewrite <- (app_nil_r a) at 1. rewrite (s_del_app_lt K V cmp) by exact H. cbn [Spec.s_del]. apply app_nil_r.
+Qed.
+
+Lemma s_del_before_not_behind (l : recs) k k0 v0 : sorted l -> In (k0, v0) l -> cmp k k0 <> Lt ->
+  s_del (before l k0) k = before l k0.
+Proof.
+  intros Hs Hin Hnl. apply s_del_all_lt. pose proof (before_all_lt l k0 Hs (ex_intro _ v0 Hin)) as H.
+  apply Forall_forall. intros x Hx. unfold Node_proofs.all_lt in H. rewrite Forall_forall in H. specialize (H x Hx).
+  destruct (cmp k k0) eqn:E; [| congruence |].
+  - apply cmp_lt_eq with k0; [exact H|apply cmp_eq_sym'; exact E].
+  - apply cmp_trans with k0; [exact H|apply cmp_gt_lt'; exact E].
+Qed.
+
+Lemma before_s_del (l : recs) k k0 v0 : sorted l -> In (k0, v0) l -> cmp k0 k <> Eq ->
+  before (s_del l k) k0 = s_del (before l k0) k.
+Proof.
+  induction l as [|[k1 v1] l IH]; intros Hs Hin Hne; [destruct Hin|].
+  inversion Hs as [|? ? Hs' Hf]; subst. rewrite Forall_forall in Hf.
+  cbn [Spec.s_del]. destruct (cmp k1 k) eqn:E1.
+  - (* k1 is removed *)
+    cbn [ScanStable_proofs.before]. destruct (cmp k1 k0) eqn:E10.
+    + exfalso. apply Hne. apply cmp_eq_trans' with k1; [apply cmp_eq_sym'; exact E10|exact E1].
+    + cbn [Spec.s_del]. rewrite E1. reflexivity.
+    + exfalso. destruct Hin as [Hin|Hin]; [inversion Hin; subst; rewrite cmp_refl' in E10; discriminate|].
+      specialize (Hf _ Hin). unfold klt in Hf. cbn [fst] in Hf. congruence.
+  - cbn [ScanStable_proofs.before]. destruct (cmp k1 k0) eqn:E10.
+    + reflexivity.
+    + cbn [Spec.s_del]. rewrite E1. f_equal.
+      destruct Hin as [Hin|Hin]; [inversion Hin; subst; rewrite cmp_refl' in E10; discriminate|]. apply IH; assumption.
+    + exfalso. destruct Hin as [Hin|Hin]; [inversion Hin; subst; rewrite cmp_refl' in E10; discriminate|].
+      specialize (Hf _ Hin). unfold klt in Hf. cbn [fst] in Hf. congruence.
+  - (* k is not stored: nothing changes *)
+    cbn [ScanStable_proofs.before]. destruct (cmp k1 k0) eqn:E10.
+    + reflexivity.
+    + cbn [Spec.s_del]. rewrite E1. reflexivity.
+    + cbn [Spec.s_del]. rewrite E1. reflexivity.
+Qed.
+
+(* ---- BACKWARD SCAN STABILITY UNDER DELETE ---- *)
+Theorem scan_prev_stable_del k (c c' : chain) ch cur id p k0 v0 fuel :
+  del_effect k c c' ch -> NodeInv c -> ids_unique K V c ->
+  node_cursor c cur id p -> c_skip cur = 0%Z -> cursor_read K V c cur = Some (k0, v0) ->
+  S (length (flat c)) < fuel ->
+  rev (scan_prev K V IDXNUM fuel c' (fix_cursor K V IDXNUM PIVOT c' ch cur)) = s_del (rev (scan_prev K V IDXNUM fuel c cur)) k.
+Proof.
+  intros He Hinv Hu Hnc Hsk Hr Hfuel.
+  destruct (del_effect_inv k c c' ch He Hinv Hu) as [Hinv' Hu'].
+  assert (Hs : sorted (flat c)) by (destruct Hinv; assumption).
+  pose proof (del_effect_flat k c c' ch He Hs) as Hflat.
+  pose proof (s_del_length (flat c) k) as Hlen. rewrite <- Hflat in Hlen.
+  pose proof (read_in_flat K V c cur id p (k0, v0) Hu Hnc Hr) as Hin.
+  pose proof (scan_prev_is_before K V cmp IDXNUM PIVOT (fun _ v => Some v) cmp_antisym pivot_ok) as SP.
+  rewrite (SP c cur id p k0 v0 fuel Hinv Hu Hnc Hsk Hr) by lia. rewrite rev_involutive.
+  destruct (del_keeps_cursor k c c' ch cur id p k0 v0 He Hinv Hu Hnc Hr)
+    as [id' p' H1 H2 H3|id' p' k1 v1 Hk H1 H2 H3 H4 H5|id' p' k1 v1 Hk H1 H2 H3 H4 H5|Hk H1 H2 H3 H5].
+  - rewrite (SP c' _ id' p' k0 v0 fuel Hinv' Hu' H1) by (try lia; congruence). rewrite rev_involutive.
+    rewrite Hflat. apply (before_s_del (flat c) k k0 v0 Hs Hin).
+    pose proof (read_in_flat K V c' _ id' p' (k0, v0) Hu' H1 H3) as Hin'. rewrite Hflat in Hin'.
+    exact (in_s_del_neq (flat c) k k0 v0 Hs Hin').
+  - (* on the successor, marker +1: a PREV moves as usual *)
+    rewrite (scan_prev_marker_fwd c' _ fuel ltac:(rewrite H2; lia)).
+    rewrite (SP c' _ id' p' k1 v1 fuel Hinv' Hu' (zero_skip_node_cursor c' _ id' p' H1) eq_refl H3) by lia.
+    rewrite rev_involutive. rewrite <- H5. symmetry. apply (s_del_before_not_behind (flat c) k k0 v0 Hs Hin).
+    apply cmp_eq_sym' in Hk. congruence.
+  - (* on the predecessor, marker -1: the first PREV delivers it without moving *)
+    destruct fuel as [|f]; [lia|].
+    rewrite (scan_prev_marker_back c' _ id' p' (k1, v1) f ltac:(rewrite H2; lia) H1 H3).
+    rewrite (SP c' _ id' p' k1 v1 f Hinv' Hu' (zero_skip_node_cursor c' _ id' p' H1) eq_refl H3) by lia.
+    cbn [rev]. rewrite rev_involutive. rewrite <- H5. symmetry. apply (s_del_before_not_behind (flat c) k k0 v0 Hs Hin).
+    apply cmp_eq_sym' in Hk. congruence.
+  - rewrite H1, H2, H5. rewrite (scan_prev_empty cur). reflexivity.
 Qed.
 
 (* ---- removal through a cursor (iwkv_cursor_del): the record at slot i of node id ---- *)
